@@ -474,6 +474,13 @@ def run_program(prog: dict) -> dict:
     except Unsupported as ex:
         res["status"] = "unsupported:" + str(ex)[:60]
         return res
+    except Exception as ex:      # noqa: BLE001
+        if type(ex).__name__ != "NonUniqueTagError":
+            raise
+        # the placement itself puts two exclusive tags on one axis (two values of the
+        # program are one node): not a program
+        res["status"] = "rejected:placement is not taggable (NonUniqueTagError)"
+        return res
     if not outs or not all(isinstance(v, pt.Array) for v in outs.values()):
         res["status"] = "non_array_output"
         return res
